@@ -484,6 +484,43 @@ def believed_foldings(ctx):
     ctx.floor('constructions that receive a folded name', n_sites, 2)
 
 
+def remarks_run_to_the_line_end(ctx):
+    """A remark (apostrophe or REM) is everything up to the end of the
+    line: a colon inside it does not start a statement."""
+    repo = ctx.repo
+    rule = 'C14.remarks-extend-to-the-end-of-the-line'
+    ctx.rule(rule, 'the comment and rem_stmt rules skip to LineEnd() / '
+             'StringEnd() and to nothing else (no statement separator among '
+             'the SkipTo targets)')
+    g = repo.module('qbee.grammar')
+    n = 0
+    for name in ('comment', 'rem_stmt'):
+        v = g.assigns.get(name)
+        if v is None:
+            raise AnalysisError(f'anchor vanished: grammar rule {name}')
+        skips = [c for c in ast.walk(v) if isinstance(c, ast.Call) and
+                 dotted(c.func) == 'SkipTo']
+        construct = f'{g.relpath}:{name}'
+        n += 1
+        targets = []
+        for c in skips:
+            for x in ast.walk(c.args[0]) if c.args else []:
+                if isinstance(x, ast.Call):
+                    targets.append(dotted(x.func))
+                elif isinstance(x, ast.Name):
+                    targets.append(x.id)
+        extra = [t for t in targets if t not in ('LineEnd', 'StringEnd')]
+        ctx.instance(rule, construct, sample={'skip_to': targets})
+        if not skips or extra or 'LineEnd' not in targets:
+            ctx.finding(rule, construct,
+                        f'the rule {name} skips to {targets or "nothing"}: '
+                        f'a remark must run to the end of the line; text '
+                        f'after {extra or "its end"} inside a remark would '
+                        f'be compiled as statements', g.relpath,
+                        getattr(v, 'lineno', 1))
+    ctx.floor('remark rules', n, 2)
+
+
 def deftype_ranges(ctx):
     """DEFINT A-C, defint a-c, DEFINT a-C and DEFINT A-c mean the same
     letters.  parse_deftype computes the range with ord()/range()/chr() on
@@ -618,6 +655,7 @@ def run(ctx):
     identifier_folding(ctx)
     believed_foldings(ctx)
     deftype_ranges(ctx)
+    remarks_run_to_the_line_end(ctx)
     optional_syntax(ctx)
     labels_not_in_module(ctx)
     return ('Analysis of the pyparsing grammar as data: every terminal '
